@@ -22,7 +22,7 @@ HEADER = ("From Coq Require Import String.\nFrom Coq Require Import List NArith 
 # data set: databases default / db1 / db2; the caller is normally allowed db1 only
 # ---------------------------------------------------------------------------------------
 MEASUREMENTS = [("default", "cpu"), ("default", "mem"), ("db1", "cpu"), ("db1", "mem"), ("db1", "CPU"), ("db1", "pg_metrics"),
-                ("db2", "secret"), ("db2", "cpu")]
+                ("db2", "secret"), ("db2", "cpu"), ("db2", "pg_audit")]
 
 
 def marker_value(db, m):
@@ -95,6 +95,7 @@ PROBES = [
     ("no-raw-text-fast-paths", "SELECT 1 -- read_parquet", ""),
     ("reject-backslash-before-quote", "SELECT 'a\\' , 'b'", ""),
     ("single-table-fast-path-keywords", "SELECT a.id FROM cpu a WHERE a.id IN (SELECT id\nFROM\nmem b)", "db1"),
+    ("quoted-cte-declaration", "WITH \"vq8\" AS (SELECT 1 AS one) SELECT * FROM vq8", ""),
 ]
 FIXBITS = 0
 
@@ -116,6 +117,8 @@ def detect_fixes(outs):
         bits |= 32
     if o[6].get("executed") is not None and o[6]["executed"].count("read_parquet(") == 2:
         bits |= 64
+    if o[7].get("executed") is not None and "read_parquet" not in o[7]["executed"]:
+        bits |= 128
     return bits
 
 
@@ -135,9 +138,11 @@ def run_cases(pid, cases, tag, files=None, views=None, timeout=2400):
     return outs[len(probes):]
 
 
-def mk_case(sql, hdr="", ep="query", allow=("db1",), reads=True, ref=False, twice=False):
-    """sql is text (str); bytes >= 0x80 only through valid UTF-8."""
-    return {"sql": sql, "hdr": hdr, "ep": ep, "allow": list(allow), "reads": reads, "ref": ref, "twice": twice}
+def mk_case(sql, hdr="", ep="query", allow=("db1",), reads=True, ref=False, twice=False, pre=None):
+    """sql is text (str); bytes >= 0x80 only through valid UTF-8.  pre: [(sql, hdr, allow)] sent to the same
+    handler instance immediately before (request sequences within the transform-cache TTL)."""
+    return {"sql": sql, "hdr": hdr, "ep": ep, "allow": list(allow), "reads": reads, "ref": ref, "twice": twice,
+            "pre": [{"sql": a, "hdr": b, "allow": list(c)} for a, b, c in (pre or [])]}
 
 
 # ---------------------------------------------------------------------------------------
@@ -417,20 +422,22 @@ class Gen:
         dbs = {"own": ["db1"], "foreign": ["db2"], "default": ["default"]}
         target = target or r.choice(["own"] * 5 + ["foreign"] * 2 + ["default"])
         db = dbs[target][0]
-        m = r.choice([mm for d, mm in MEASUREMENTS if d == db and mm != "pg_metrics"] + (["nosuch"] if r.random() < 0.05 else []))
+        m = r.choice([mm for d, mm in MEASUREMENTS if d == db and not mm.startswith("pg_")] + (["nosuch"] if r.random() < 0.05 else []))
+        if r.random() < 0.04:
+            m = {"db1": "pg_metrics", "db2": "pg_audit"}.get(db, m)      # a measurement on the skip list
         return db, m
 
     def name_item(self, target=None):
         r = self.rng
         db, m = self.pick_measurement(target)
-        if self.ctes and r.random() < 0.25:
+        if self.ctes and r.random() < 0.25 and not (self.hdr == "" and r.random() < 0.4):
             c = r.choice(self.ctes)
             self.items.append(("cte", None, c, "from"))
             return self.ident(c) if r.random() < 0.2 else c
         qualify = (self.hdr == "" and db != "default") or (self.hdr != "" and r.random() < 0.08) or (self.hdr == "" and r.random() < 0.1)
         if self.hdr != "" and not qualify:
             db = self.hdr                       # an unqualified name means the header database
-            m = r.choice([mm for d, mm in MEASUREMENTS if d == db and mm != "pg_metrics"] or [m])
+            m = r.choice([mm for d, mm in MEASUREMENTS if d == db and not mm.startswith("pg_")] or [m])
         if qualify:
             self.items.append(("name", db, m, "qualified"))
             sep = "." if r.random() < 0.93 else r.choice([" .", ". ", ".\n"])
@@ -568,7 +575,7 @@ class Gen:
         if r.random() < 0.15:
             out += self.kw("RECURSIVE") + g()
         for i in range(n):
-            if self.dirt > 0.5 and r.random() < 0.15:
+            if r.random() < (0.3 if self.dirt > 0.5 else 0.15):
                 nm = r.choice(["secret", "cpu", "mem"])          # a CTE named like a measurement
                 self.labels.add("cte-named-like-measurement")
             else:
@@ -684,10 +691,10 @@ class ValidGen:
             self.labels.add("cte-ref")
             return r.choice(self.ctes)
         if self.hdr:
-            m = r.choice([mm for d, mm in MEASUREMENTS if d == self.hdr and mm == mm.lower() and mm != "pg_metrics"])
+            m = r.choice([mm for d, mm in MEASUREMENTS if d == self.hdr and mm == mm.lower() and not mm.startswith("pg_")])
             return self.q(m)
         db = r.choice(["default", "db1", "db1", "db2"])
-        m = r.choice([mm for d, mm in MEASUREMENTS if d == db and mm == mm.lower() and mm != "pg_metrics"])
+        m = r.choice([mm for d, mm in MEASUREMENTS if d == db and mm == mm.lower() and not mm.startswith("pg_")])
         if db == "default" and r.random() < 0.8:
             return self.q(m)
         if db == "default":
@@ -832,3 +839,63 @@ def generate_valid(rng):
     g = ValidGen(rng, hdr)
     sql = g.statement()
     return {"sql": sql, "hdr": hdr, "labels": sorted(g.labels), "disguises": sorted(g.disguises), "total_order": g.total_order}
+
+
+def cte_quoting_matrix():
+    """CTE declared quoted/unquoted x referenced quoted/unquoted x FROM/JOIN position x header on/off x a stored
+    measurement of the same name existing (cpu) or not (ctq, per-host) -> [(sql, hdr, label)]"""
+    out = []
+    for name in ["cpu", "ctq", "per-host"]:
+        for decl_q in (False, True):
+            for ref_q in (False, True):
+                if name == "per-host" and not (decl_q and ref_q):
+                    continue
+                for pos in ("from", "join"):
+                    for hdr in ("", "db1"):
+                        d = '"%s"' % name if decl_q else name
+                        r = '"%s"' % name if ref_q else name
+                        if pos == "from":
+                            sql = "WITH %s AS (SELECT 1 AS one, 2 AS two) SELECT * FROM %s" % (d, r)
+                        else:
+                            sql = "WITH %s AS (SELECT 1 AS id, 7 AS seven) SELECT a.id, x.seven FROM mem a JOIN %s x ON a.id = x.id" % (d, r)
+                        out.append((sql, hdr, "cte-quoting:decl-%s:ref-%s" % ("quoted" if decl_q else "bare", "quoted" if ref_q else "bare")))
+    return out
+
+
+# database-qualified references whose measurement is a CTE name of the same statement, or on the skip list:
+# the CTE / skip-list exclusions of the permission check apply to BARE names only
+QUALIFIED_EXCLUSION_PROBES = [
+    ("WITH cpu AS (SELECT 1 AS one) SELECT s.host FROM db2.cpu s", ""),
+    ("WITH cpu AS (SELECT 1 AS one) SELECT a.host FROM db1.cpu a JOIN db2.cpu s ON 1=1", ""),
+    ("WITH secret AS (SELECT 1 AS one), c2 AS (SELECT 2 AS two) SELECT s.tag FROM c2 JOIN db2.secret s ON 1=1", ""),
+    ("WITH \"cpu\" AS (SELECT 1 AS one) SELECT s.host FROM \"db2\".\"cpu\" s", ""),
+    ("SELECT s.host FROM db2.pg_audit s", ""),
+    ("SELECT a.host FROM db1.cpu a JOIN db2.pg_audit s ON 1=1", ""),
+    ("SELECT a.host FROM db1.cpu a LEFT OUTER JOIN db2.pg_audit s ON a.id = s.id", ""),
+    ("SELECT a.host FROM db1.pg_metrics a", ""),
+]
+
+
+def cache_pairs():
+    """request PAIRS on one handler instance within the transform-cache TTL -> [(label, pre, sql, hdr, allow)];
+    every text carries its own alias so that no other case of the run shares a cache entry with it"""
+    out = []
+    t = "SELECT pa1.id, pa1.tag FROM cpu pa1"
+    out.append(("same-text-then-header", [(t, "", ["*"])], t, "db1", ["db1"]))
+    t = "SELECT pa2.id, pa2.tag FROM cpu pa2 JOIN mem pa3 USING (id)"
+    out.append(("same-text-header-then-none", [(t, "db1", ["db1"])], t, "", ["*"]))
+    t = "SELECT pa4.id, pa4.tag FROM cpu pa4 WHERE pa4.host <> 'x'"
+    out.append(("same-text-other-header", [(t, "db1", ["*"])], t, "db2", ["*"]))
+    t = "WITH c1 AS (SELECT * FROM cpu pa5) SELECT count(*) AS n FROM c1"
+    out.append(("same-text-then-header", [(t, "", ["*"])], t, "db2", ["*"]))
+    a, b = "SELECT pb1.id FROM cpu pb1 WHERE pb1.host = 'h1'", "SELECT pb1.id FROM cpu pb1 WHERE pb1.host = 'H1'"
+    out.append(("literal-case", [(a, "db1", ["*"])], b, "db1", ["*"]))
+    a, b = "SELECT pb2.id FROM db1.cpu pb2 WHERE pb2.tag <> 'DB1.CPU#0'", "SELECT pb2.id FROM db1.cpu pb2 WHERE pb2.tag <> 'db1.cpu#0'"
+    out.append(("literal-case", [(a, "", ["*"])], b, "", ["*"]))
+    a, b = "SELECT pc1.id, pc1.tag FROM \"cpu\" pc1", "SELECT pc1.id, pc1.tag FROM \"CPU\" pc1"
+    out.append(("quoted-identifier-case", [(a, "db1", ["*"])], b, "db1", ["*"]))
+    a, b = "SELECT pc2.id, pc2.tag FROM \"CPU\" pc2", "SELECT pc2.id, pc2.tag FROM \"cpu\" pc2"
+    out.append(("quoted-identifier-case", [(a, "db1", ["*"])], b, "db1", ["*"]))
+    a, b = "SELECT pd1.id AS \"Ab\" FROM cpu pd1", "SELECT pd1.id AS \"ab\" FROM cpu pd1"
+    out.append(("quoted-alias-case", [(a, "db1", ["*"])], b, "db1", ["*"]))
+    return out
